@@ -50,3 +50,16 @@ package gateway
 //@   at $1/call Pipe#1: ghost piped := true
 //@   ensures failure-sends-status-then-closes: ferr != nil ==> (sentStatus && sentErr == ferr && closed && !piped)
 //@   ensures success-pipes: ferr == nil ==> (piped && !sentStatus && !closed)
+
+// ---- C34: request host -> tunnel name
+
+//@ macro isRoot(g *Gateway, d string) bool = slices.Contains(g.RootDomains, d)
+
+//@ func (g *Gateway) extractHostname(host string) (hostname string, err error)
+//@   opt frame=off
+//@   requires roots-are-lower-case: forall d string :: isRoot(g, d) ==> lower(d) == d
+//@   ensures ip-refused: net.ParseIP(host) != nil ==> err != nil
+//@   ensures too-few-labels-refused: strCount(host, ".") < 2 ==> err != nil
+//@   ensures refused-means-empty: err != nil ==> hostname == ""
+//@   ensures under-root-domain-gives-label: (err == nil && isRoot(g, lower(substr(host, indexOf(host, ".") + 1, len(host) - indexOf(host, ".") - 1)))) ==> hostname == lower(substr(host, 0, indexOf(host, ".")))
+//@   ensures otherwise-whole-host: (err == nil && !isRoot(g, lower(substr(host, indexOf(host, ".") + 1, len(host) - indexOf(host, ".") - 1)))) ==> hostname == lower(host)
